@@ -123,6 +123,13 @@ void run_c07(const std::vector<std::vector<std::string>>& cases, vt::Rng& rng)
       MssmPt p0 = cls == "hightb" ? vm::random_mssm(rng, 320, 1500, 30, 80)
                 : cls == "compressed" ? vm::random_mssm(rng, 320, 420)
                 : vm::random_mssm(rng, 320, 2000);
+      if (cls == "stopmix") {
+         p0 = vm::random_mssm(rng, 320, 1200, 10, 50);
+         p0.Mu = rng.sign() * rng.uni(2000, 4000);
+         p0.mq2[2] = std::pow(rng.uni(600, 1000), 2); p0.mu2[2] = std::pow(rng.uni(600, 1000), 2);
+         p0.Au[2] = (p0.Mu > 0 ? 1 : -1) * rng.uni(1500, 3000);
+         p0.MA0 = rng.uni(1000, 2000);
+      }
       if (cls == "degenerate") {
          const double m = rng.logu(320, 900);
          int n = 0;
@@ -424,6 +431,7 @@ void run_c11(const std::vector<std::vector<std::string>>& cases, vt::Rng& rng)
       const std::string sig = "S/" + par + "/" + rel + "/" + A + "," + B;
       const double cfac = rel == "eq" ? 1.0 : rel == "twice" ? 2.0 : 0.5;
       MssmPt p = vm::random_mssm(rng, 200, 2000, 2, 60);
+      if (par == "MA0" && (B == "MVZ" || B == "MVWm")) p.MA0 = rng.logu(100, 600);   // the vector-boson masses within reach of the bracket
       auto g = [&](double x, double& out) {
          MssmPt q = p; param_ref(q, par) = x;
          double a = 0, b = 0;
@@ -486,8 +494,15 @@ void run_c03(const std::vector<std::vector<std::string>>& cases, vt::Rng& rng)
       p.M1 = std::fabs(p.M1) * (sg[1] == '-' ? -1 : 1);
       p.M2 = std::fabs(p.M2) * (sg[2] == '-' ? -1 : 1);
       p.Ae[1] = rng.uni(-1e4, 1e4) * (spec == "light" ? 0.03 : 1);
-      const std::string sig = "mssm/" + sg + "/" + tbc + "/" + spec + (conv ? "/conv" : "/tree");
+      // a third of the tree-level cases re-use a model object that has already computed another point
+      // (parameter scans: setters + calculate_masses() again); nothing of the first point may survive
+      const bool reused = !conv && rng.below(3) == 0;
+      const std::string sig = "mssm/" + sg + "/" + tbc + "/" + spec + (conv ? "/conv" : "/tree") + (reused ? "/reused" : "");
       MSSMNoFV_onshell m;
+      if (reused) {
+         const MssmPt prev = vm::random_mssm(rng, 80, 3000, 1, 100);
+         vm::exc_class([&] { vm::apply(m, prev); m.calculate_masses(); });
+      }
       std::string exc = vm::exc_class([&] {
          vm::apply(m, p);
          m.calculate_masses();
